@@ -2,7 +2,9 @@ package main
 
 import (
 	"fmt"
+	yaml "gopkg.in/yaml.v2"
 	"math/rand"
+	"os"
 	"path/filepath"
 	"reflect"
 	"strings"
@@ -258,7 +260,7 @@ func normCfg(c *config.PikeConfig) string {
 }
 
 func c17(r *hx.Run) {
-	r.Rule = "generated configurations (1-3 caches/upstreams/compress profiles, 1-4 locations, 1-3 servers, optional fields set or unset; names and free-text values drawn from strings that need YAML quoting). (1) Validate must accept each valid one and reject each of 33 single injected defects (every dangling reference, at first and last position, and every malformed documented field); any accepted configuration must pass the independent closure predicate. (2) Write then Read through the file client must return the same configuration (modulo version, yaml text, nil vs empty). (3) accepted configurations are applied to a freshly started real pike process and every server is probed: no answer may be pike's own 'cache dispatcher / upstream not found', nor 'location not found' where the reference router finds one; names with leading/trailing white space included. (4) two accepted configurations saved to a running instance in quick succession, the second one (which renames the cache, location and upstream the server refers to) while the first is still being applied: once settled, the server resolves everything. Non-trivial/distinct = (defect kind) / round-tripped configuration containing a nasty string / applied configuration."
+	r.Rule = "generated configurations (1-3 caches/upstreams/compress profiles, 1-4 locations, 1-3 servers, optional fields set or unset; names and free-text values drawn from strings that need YAML quoting). (1) Validate must accept each valid one and reject each of 33 single injected defects (every dangling reference, at first and last position, and every malformed documented field); any accepted configuration must pass the independent closure predicate. (2) Write then Read through the file client must return the same configuration (modulo version, yaml text, nil vs empty), also when the stored document was replaced from outside between two saves of the same configuration. (3) accepted configurations are applied to a freshly started real pike process and every server is probed: no answer may be pike's own 'cache dispatcher / upstream not found', nor 'location not found' where the reference router finds one; names with leading/trailing white space included. (4) two accepted configurations saved to a running instance in quick succession, the second one (which renames the cache, location and upstream the server refers to) while the first is still being applied: and a third save that only renames the upstream a location refers to: once settled, the server resolves everything. Non-trivial/distinct = (defect kind) / round-tripped configuration containing a nasty string / applied configuration."
 	r.Assume = []string{"documented field kinds only; duplicate names and sub-second durations are accepted by pike and not judged"}
 	rnd := rand.New(rand.NewSource(r.Seed))
 	origins := []string{"http://127.0.0.1:3001", "http://127.0.0.1:3002"}
@@ -323,6 +325,21 @@ func c17(r *hx.Run) {
 			r.Violate("round_trip_differs", nil, "server count differs", nil, cfg)
 		}
 		r.Add("round_trips", 1)
+		if i%10 == 3 {
+			// the stored document is replaced behind pike's back (an operator's editor, another instance),
+			// then the same configuration is saved again: what is read back is what was saved
+			other := c17ValidConfig(rnd, origins, ports, false)
+			if data, err := yaml.Marshal(other); err == nil && os.WriteFile(path, data, 0600) == nil {
+				if err := config.Write(deepCopyCfg(cfg)); err == nil {
+					again, err := config.Read()
+					r.Add("saves_after_the_stored_document_was_replaced_from_outside", 1)
+					if err != nil || normCfg(again) != want {
+						r.Violate("round_trip_differs", map[string]string{"sequence": "save_external_edit_save"}, "the same configuration saved again after the stored document had been replaced from outside is not what Read returns", map[string]interface{}{"read_back": again}, cfg)
+						continue
+					}
+				}
+			}
+		}
 		if i%20 == 0 {
 			r.Distinct(fmt.Sprintf("rt:%d:%s", i, cfg.Caches[0].Name))
 		}
@@ -386,6 +403,11 @@ func c17LiveSaves(r *hx.Run, bin string, k int) {
 		return cfg
 	}
 	cfgs := []*config.PikeConfig{mk("a", false), mk("a", true), mk("b", false)}
+	// a third save changes nothing but the name of the upstream the location refers to
+	third := mk("b", false)
+	third.Upstreams[0].Name = "uprenamed"
+	third.Locations[0].Upstream = "uprenamed"
+	cfgs = append(cfgs, third)
 	for _, c := range cfgs {
 		if err := c.Validate(); err != nil {
 			r.InconclusiveCase("live-save configuration not accepted: " + err.Error())
@@ -428,13 +450,22 @@ func c17LiveSaves(r *hx.Run, bin string, k int) {
 	if overlapped {
 		r.Add("live_saves_while_an_update_was_being_applied", 1)
 	}
+	before = p.CountEvent("update.done")
+	if err := lp.save(cfgs[3], "inplace_write", &pad); err != nil {
+		r.InconclusiveCase("cannot write the configuration: " + err.Error())
+		return
+	}
+	if err := lp.waitApplied(before, "inplace_write"); err != nil {
+		r.InconclusiveCase(err.Error())
+		return
+	}
 	cl := hx.NewClient(nil)
 	for n := 0; n < 4; n++ {
 		res := cl.Do(hx.Req{Addr: addr, Host: "aa.example", URI: fmt.Sprintf("/live/%d/%d", k, n), Timeout: 10 * time.Second})
 		r.Eval(1)
 		r.Add("live_save_probes", 1)
 		if res.Err != nil || res.Status != 200 {
-			r.Violate("accepted_configuration_unresolved", map[string]string{"mode": "saved_while_previous_save_is_applied"}, fmt.Sprintf("after two accepted configurations were saved in quick succession the server answers %d %.120s (err %v)", res.Status, res.Raw, res.Err), res.Brief(), map[string]interface{}{"saved_first": cfgs[1], "saved_last": cfgs[2]})
+			r.Violate("accepted_configuration_unresolved", map[string]string{"mode": "saved_while_previous_save_is_applied"}, fmt.Sprintf("after two accepted configurations were saved in quick succession the server answers %d %.120s (err %v)", res.Status, res.Raw, res.Err), res.Brief(), map[string]interface{}{"saved_first": cfgs[1], "saved_second": cfgs[2], "saved_last": cfgs[3]})
 			return
 		}
 	}
